@@ -4,6 +4,8 @@ import TextxVerif.Resolve
 ops:
   {"op":"loop","refs":[id…],"deps":[[id,[id…]]…]}  → {"pending":[…],"seq":[…]}
   {"op":"list","seq":[[id,pos,tgt]…]}               → {"list":[tgt…]}
+  {"op":"resolve","refs":[id…],"deps":[…],"lists":[[[id,pos]…]…]}
+        → {"pending":[…],"seq":[…],"lists":[[id…]…]}   loop + content of every list attribute (C09)
 -/
 open Lean Wire Resolve
 
@@ -34,6 +36,15 @@ def parseLRefs (a : Array Json) : Option (List LRef) :=
     | [i, p, t] => pure { id := i, pos := p, tgt := t }
     | _ => none
 
+/-- list attributes: one array of `[id, pos]` per attribute (the target of reference `id` is item `id`) -/
+def parseAttrs (a : Array Json) : Option (List (List LRef)) :=
+  a.toList.mapM fun e => do
+    let xs ← asArr? e
+    xs.toList.mapM fun x => do
+      match ← asNatList? x with
+      | [i, p] => pure { id := i, pos := p, tgt := i }
+      | _ => none
+
 def handle (j : Json) : Json :=
   match getStr? j "op" with
   | some "loop" =>
@@ -42,6 +53,14 @@ def handle (j : Json) : Json :=
       let (p, res) := loop (tableProvider tbl) (refs.length + 1) refs []
       Json.mkObj [("pending", toJson p), ("seq", toJson res.reverse)]
     | _, _ => badOp
+  | some "resolve" =>
+    match getNatList? j "refs", (getArr? j "deps").bind parseDeps, (getArr? j "lists").bind parseAttrs with
+    | some refs, some tbl, some attrs =>
+      let (p, res) := loop (tableProvider tbl) (refs.length + 1) refs []
+      let seq := res.reverse
+      Json.mkObj [("pending", toJson p), ("seq", toJson seq),
+                  ("lists", toJson (attrs.map fun L => (attrAfter L seq).map (·.tgt)))]
+    | _, _, _ => badOp
   | some "list" =>
     match (getArr? j "seq").bind parseLRefs with
     | some seq => Json.mkObj [("list", toJson ((listAfter seq).map (·.tgt)))]
